@@ -90,6 +90,9 @@ ValueOk(mode, e, r) ==      \* the value handed to the data parameter is what th
       [] mode \in {"inst", "instopt"} /\ r.class = "good_inst" -> e.data.t = "inst" /\ e.data.addr = "addr1"
       [] OTHER -> TRUE
 EvTypes(n) == [i \in 1..n |-> "ev" \o ToString(i - 1)]
+(* the events of the sub-message whole: type and attributes, among them one with a reserved (underscore-prefixed) key *)
+EvFull(n) == [i \in 1..n |-> [ty |-> "ev" \o ToString(i - 1),
+                              attrs |-> << <<"_contract_address", "c" \o ToString(i - 1)>>, <<"k", "v" \o ToString(i - 1)>> >>]]
 SecondOk(m, e, r) ==
     CASE m.on = "success" -> e.second.kind = "none"
       [] m.on = "error"   -> e.second.kind = "error" /\ e.second.text = r.err_text
@@ -169,7 +172,7 @@ TrReplyReturn ==
                /\ Chk("C07", "an_id_of_no_handler_is_an_error", l, ~known => E.verdict = "err")
                /\ Chk("C07", "uncovered_success_passes_events_and_data_through", l,
                       r.kind = "passthrough" =>
-                         /\ E.verdict = "ok" /\ E.events = EvTypes(rp.events) /\ E.attrs = <<>> /\ E.msgs = 0
+                         /\ E.verdict = "ok" /\ E.events = EvTypes(rp.events) /\ E.events_full = EvFull(rp.events) /\ E.attrs = <<>> /\ E.msgs = 0
                          /\ E.has_data = (rp.class # "absent") /\ E.data = rp.data)
                /\ Chk("C07", "uncovered_failure_returns_that_error", l,
                       r.kind = "forward_error" => (E.verdict = "err" /\ E.err_mentions_sub_error))
@@ -211,6 +214,8 @@ TrProbeReturn ==
 TrPanic ==
     /\ IsEvent("Panic")
     /\ Chk(IF E.where = "build" THEN "C08" ELSE "C07", "generated_code_does_not_panic", l, FALSE)
+    \* (undecodable data "always fails with an error": a panic while a reply with data is dispatched is also C09's business)
+    /\ Chk("C09", "generated_code_does_not_panic", l, ~(E.where = "dispatch_reply" /\ st = "replied" /\ rep.result = "ok" /\ rep.class # "absent"))
     /\ st' = "idle" /\ sub' = NoSub /\ rep' = NoRep /\ out' = NoOut
     /\ UNCHANGED <<pi, fx>>
 
